@@ -1238,6 +1238,8 @@ enum Adapter {
 enum Consumer {
     Any(syn::ExprClosure),
     Find(syn::ExprClosure),
+    /// `.find_map(f)`: the first `Some` that f yields
+    FindMap(syn::ExprClosure),
     Collect,
     ForEach(syn::ExprClosure),
     ForBody(syn::Pat, syn::Block),
@@ -1339,6 +1341,7 @@ fn parse_chain(e: &syn::Expr) -> Option<(ChainSrc, Vec<Adapter>, Consumer)> {
     let consumer = match (m.as_str(), mc.args.len()) {
         ("any", 1) => Consumer::Any(closure_of(&mc.args[0])?),
         ("find", 1) => Consumer::Find(closure_of(&mc.args[0])?),
+        ("find_map", 1) => Consumer::FindMap(closure_of(&mc.args[0])?),
         ("for_each", 1) => Consumer::ForEach(closure_of(&mc.args[0])?),
         ("collect", 0) => Consumer::Collect,
         ("next", 0) => Consumer::Next,
@@ -1540,6 +1543,25 @@ impl<'a> LoopPass<'a> {
                         #marker
                         #(#body)*
                         if #e { #r_id = Some(#cur); }
+                    }
+                    #r_id
+                })
+            }
+            Consumer::FindMap(c) => {
+                let r_id = syn::Ident::new(&format!("__found{}", k), Span::call_site());
+                let e = inline(self, &c, quote!(#cur))?;
+                let decl: TokenStream = match &elem_ty {
+                    Some(t) => quote!(let mut #r_id: Option<#t> = None;),
+                    None => quote!(let mut #r_id = None;),
+                };
+                syn::parse_quote!({
+                    let #s_id = #seq_init;
+                    let mut #i_id: usize = 0;
+                    #decl
+                    while #i_id < #s_id.len() && #r_id.is_none() {
+                        #marker
+                        #(#body)*
+                        #r_id = #e;
                     }
                     #r_id
                 })
@@ -2462,6 +2484,7 @@ pub fn apply_to_fn(
                 "iflet_head" => format!("iflet_head_b_{}", m),
                 "entry" => continue,
                 "before_tail" => continue,
+                "at_end" => continue,
                 k if k.starts_with("l_") => continue,
                 other => return Err(format!("bad recipe: unknown anchor kind {}", other)),
             };
@@ -2478,6 +2501,16 @@ pub fn apply_to_fn(
                 info.anchors.push("before_tail_t_0".into());
             }
             _ => return Err("lost anchor: function has no tail expression for anchor before_tail".into()),
+        }
+    }
+    // a function whose body ends in a statement (unit result): the anchor is the last thing in the body
+    if cfg.anchors.iter().any(|(k, _, _)| k == "at_end") {
+        match f.block.stmts.last() {
+            Some(syn::Stmt::Expr(_, None)) => return Err("lost anchor: function has a tail expression (use before_tail)".into()),
+            _ => {
+                f.block.stmts.push(anchor_stmt("at_end", "z", 0));
+                info.anchors.push("at_end_z_0".into());
+            }
         }
     }
     if cfg.anchors.iter().any(|(k, _, _)| k == "entry") {
